@@ -7,7 +7,9 @@
            C<a>         NewCursorAcker(a)
            A<c>:<o>     ack of offset o through the cursor with index c
            X            Close()
-   result: one observation per op joined by ';' :  <commit>,<head>,<res>,<fired>
+           P<o>:<id>    WaitForHeadOffset(o) issued by a parked waiter (a follower cursor) with that id
+   result: one observation per op joined by ';' :  <commit>,<head>,<res>,<fired>,<woken>
+     woken: - | ids of the head waiters that returned after this op, ascending, joined by '.' 
      res:   - | n<o> | c<idx> | e:toomany | e:invalidhead | panic
      fired: - | <id>+ / <id>!  joined by '.'   (+ = OnComplete, ! = OnCompleteError) *)
 let parse_op s : M.op =
@@ -22,6 +24,14 @@ let parse_op s : M.op =
             | [c; o] -> M.OpAck (n_of_string c, mz_of_string o) | _ -> failwith ("bad op " ^ s))
   | 'X' -> M.OpClose
   | _ -> failwith ("bad op " ^ s)
+let parse_hop s : M.hop =
+  if s.[0] = 'P' then
+    (match String.split_on_char ':' (String.sub s 1 (String.length s - 1)) with
+     | [o; id] -> M.HPark (mz_of_string o, n_of_string id) | _ -> failwith ("bad op " ^ s))
+  else M.HBase (parse_op s)
+let string_of_woken l =
+  if l = [] then "-" else
+  String.concat "." (List.map Z.to_string (List.sort Z.compare (List.map z_of_n l)))
 let string_of_res = function
   | M.RNone -> "-"
   | M.RNext o -> "n" ^ string_of_mz o
@@ -35,12 +45,13 @@ let string_of_fired l =
 let () = read_lines (fun line ->
   match String.split_on_char ' ' line with
   | ["seq"; id; rf; h; c; ops] ->
-    let st = ref (M.new_tracker (n_of_string rf) (mz_of_string h) (mz_of_string c)) in
+    let st = ref (M.new_tracker (n_of_string rf) (mz_of_string h) (mz_of_string c), []) in
     let ops = if ops = "-" then [] else String.split_on_char ';' ops in
     let obs = List.map (fun o ->
-      let (s', (r, f)) = M.step !st (parse_op o) in
-      st := s';
-      Printf.sprintf "%s,%s,%s,%s" (string_of_mz (M.commit s')) (string_of_mz (M.head s')) (string_of_res r) (string_of_fired f)) ops in
+      let (st', ((r, f), w)) = M.hstep !st (parse_hop o) in
+      st := st';
+      let s' = fst st' in
+      Printf.sprintf "%s,%s,%s,%s,%s" (string_of_mz (M.commit s')) (string_of_mz (M.head s')) (string_of_res r) (string_of_fired f) (string_of_woken w)) ops in
     Printf.printf "%s %s\n" id (if obs = [] then "-" else String.concat ";" obs)
   | [] | [""] -> ()
   | _ -> Printf.printf "?? bad line: %s\n" line)
